@@ -195,6 +195,12 @@ class Interp(object):
       return [out]
     if t in ("StatelessWhile", "While"):
       return self.while_loop(op, ins, var_syms, g)
+    if t in ("PartitionedCall", "StatefulPartitionedCall"):
+      from tensorflow.python.framework import function_def_to_graph as f2g
+      lib = {f.signature.name: f for f in g.as_graph_def().library.function}
+      fg = f2g.function_def_to_graph(lib[op.get_attr("f").name])
+      outs, _ = self.run(None, list(ins), var_syms, graph=fg, capture_vals=[])
+      return list(outs)
     if t in ("StatelessIf", "If"):
       raise Unsupported(t)
     if not any(is_sym(i) for i in ins):
